@@ -52,7 +52,8 @@ class Parser(Emitter):
 
         fn = self.functions.get(name)
         result = {'value': None}  # get around 2.7 not having nonlocal
-        if fn is None:
+        if fn is None and formulas.is_supported(name):
+            # (get_for raises SyntaxError on a miss, which the LR parser takes for a request to recover)
             fn = formulas.get_for(name)
         if fn is None:
             raise formulaserror.NAME
